@@ -67,4 +67,24 @@ def check(tier='quick', seed=0):
                 return dict(reproduced=True, cases=cases, clause='directional derivative of the misfit == <gradient, direction>', case=case, mapping=mapping,
                             finite_difference=fd, gradient_dot_direction=gd, rel=abs(fd - gd) / max(abs(fd), abs(gd)),
                             how='contracts.c07_concrete.check: emg3d.Simulation on a stretched 8x8x8 grid, 2 sources, electric+magnetic receivers, NaN datum')
+    # the gradient belongs to the CURRENT data: change which data are missing after a first evaluation, on the same survey object
+    survey, model, opts, rng = build(seed, 'isotropic', 'Resistivity', 1)
+    sv = survey.copy()
+    sim = emg3d.Simulation(sv, model, **opts)
+    _ = sim.gradient
+    n_finite = int(np.sum(sv.isfinite)) if hasattr(sv, 'isfinite') else 0      # a user counting the data
+    obs = sv.data['observed'].data
+    obs[0, 1, 0] = survey.data['synthetic'].data[0, 1, 0] * 1.1 if 'synthetic' in survey.data else 1e-12 + 1e-12j    # missing datum delivered
+    obs[1, 0, 0] = np.nan + 1j * np.nan                                                                          # another one muted
+    sim.clean('computed')
+    g_same = np.asarray(sim.gradient).copy()
+    mf_same = float(sim.misfit)
+    fresh = emg3d.Simulation(sv.copy(), model, **opts)
+    g_fresh = np.asarray(fresh.gradient)
+    cases += 1
+    if not np.all(np.isfinite(g_same)) or abs(mf_same - float(fresh.misfit)) > 1e-9 * abs(mf_same) or \
+            np.abs(g_same - g_fresh).max() > 1e-6 * np.abs(g_fresh).max():
+        return dict(reproduced=True, cases=cases, clause='after the set of missing data changed (same survey object, clean(computed)), misfit and gradient must be those of a fresh '
+                    'simulation on the same data', finite_before=n_finite, rel_diff_gradient=float(np.abs(g_same - g_fresh).max() / np.abs(g_fresh).max()),
+                    how='contracts.c07_concrete.check: gradient, then observed[0,1,0] delivered and observed[1,0,0] muted, clean, gradient again vs a fresh Simulation')
     return dict(reproduced=False, cases=cases)
